@@ -15,11 +15,15 @@ import LLBuild.Drv.C10
 import LLBuild.Drv.C16
 import LLBuild.Drv.C15
 import LLBuild.Drv.C13
+import LLBuild.Drv.C03
+import LLBuild.Drv.C04
+import LLBuild.Drv.C17Lex
+import LLBuild.Drv.C17Load
 
 open LLBuild.Drv
 
 def allModes : List (String × Mode) :=
-  LLBuild.Drv.C14.modes ++ LLBuild.Drv.Engine.modes ++ LLBuild.Drv.EngineInv.modes ++ LLBuild.Drv.C09.modes ++ LLBuild.Drv.C11.modes ++ LLBuild.Drv.C20.modes ++ LLBuild.Drv.C10.modes ++ LLBuild.Drv.C16.modes ++ LLBuild.Drv.C15.modes ++ LLBuild.Drv.C13.modes
+  LLBuild.Drv.C14.modes ++ LLBuild.Drv.Engine.modes ++ LLBuild.Drv.EngineInv.modes ++ LLBuild.Drv.C09.modes ++ LLBuild.Drv.C11.modes ++ LLBuild.Drv.C20.modes ++ LLBuild.Drv.C10.modes ++ LLBuild.Drv.C16.modes ++ LLBuild.Drv.C15.modes ++ LLBuild.Drv.C13.modes ++ LLBuild.Drv.C03.modes ++ LLBuild.Drv.C04.modes ++ LLBuild.Drv.C17Lex.modes ++ LLBuild.Drv.C17Load.modes
 
 def main (args : List String) : IO UInt32 := do
   let stdin ← IO.getStdin
